@@ -95,12 +95,12 @@ pub fn c09(seed: u64, budget: usize) -> Report {
     let mut rep = Report::new(); for p in parts { rep.merge(p); } rep
 }
 
-fn frame_of(r: &mut Rng, ts_u16: bool, w: usize, h: usize, ssx: u8, ssy: u8, pads: [usize; 4], logical: &[Vec<u16>; 3]) -> (Frame<u8>, Frame<u16>) {
+fn frame_of(r: &mut Rng, ts_u16: bool, w: usize, h: usize, ssx: u8, ssy: u8, pads: [usize; 6], logical: &[Vec<u16>; 3]) -> (Frame<u8>, Frame<u16>) {
     let _ = r;
-    let mk8 = |pi: usize| { let (pw, ph, xd, yd, xp, yp) = if pi == 0 { (w, h, 0, 0, pads[0], pads[1]) } else { (w >> ssx, h >> ssy, ssx as usize, ssy as usize, pads[2], pads[3]) };
+    let mk8 = |pi: usize| { let (pw, ph, xd, yd, xp, yp) = if pi == 0 { (w, h, 0, 0, pads[0], pads[1]) } else { (w >> ssx, h >> ssy, ssx as usize, ssy as usize, pads[2 * pi], pads[2 * pi + 1]) };
         let mut p: Plane<u8> = Plane::new(pw, ph, xd, yd, xp, yp); for (i, s) in p.data.iter_mut().enumerate() { *s = (mix(i as u64 + pads[0] as u64 * 77) & 255) as u8; }
         let stride = p.cfg.stride; let o = p.data_origin_mut(); for yy in 0..ph { for xx in 0..pw { o[yy * stride + xx] = logical[pi][yy * pw + xx] as u8; } } p };
-    let mk16 = |pi: usize| { let (pw, ph, xd, yd, xp, yp) = if pi == 0 { (w, h, 0, 0, pads[0], pads[1]) } else { (w >> ssx, h >> ssy, ssx as usize, ssy as usize, pads[2], pads[3]) };
+    let mk16 = |pi: usize| { let (pw, ph, xd, yd, xp, yp) = if pi == 0 { (w, h, 0, 0, pads[0], pads[1]) } else { (w >> ssx, h >> ssy, ssx as usize, ssy as usize, pads[2 * pi], pads[2 * pi + 1]) };
         let mut p: Plane<u16> = Plane::new(pw, ph, xd, yd, xp, yp); for (i, s) in p.data.iter_mut().enumerate() { *s = (mix(i as u64 + pads[1] as u64 * 31) & 0xffff) as u16; }
         let stride = p.cfg.stride; let o = p.data_origin_mut(); for yy in 0..ph { for xx in 0..pw { o[yy * stride + xx] = logical[pi][yy * pw + xx]; } } p };
     let _ = ts_u16;
@@ -121,8 +121,10 @@ pub fn c11(seed: u64, budget: usize) -> Report {
             let max = (1u64 << bd) - 1;
             let logical: [Vec<u16>; 3] = [(0..w * h).map(|_| r.below(max + 1) as u16).collect(), (0..(w >> ssx) * (h >> ssy)).map(|_| r.below(max + 1) as u16).collect(), (0..(w >> ssx) * (h >> ssy)).map(|_| r.below(max + 1) as u16).collect()];
             let desc = format!("C11 {:?} {}x{} u16={}", cfg, w, h, u16s);
-            let pa = [r.below(33) as usize, r.below(33) as usize, r.below(33) as usize, r.below(33) as usize];
-            let pb = [r.below(33) as usize, r.below(33) as usize, r.below(33) as usize, r.below(33) as usize];
+            // every plane gets its own padding (U and V need not share a stride)
+            let vp = [0usize, 1, 8, 17, 33, 64, 70];
+            let pa = [r.below(33) as usize, r.below(33) as usize, r.below(33) as usize, r.below(33) as usize, *r.pick(&vp), r.below(33) as usize];
+            let pb = [r.below(33) as usize, r.below(33) as usize, *r.pick(&vp), r.below(33) as usize, r.below(33) as usize, r.below(33) as usize];
             let (a8, a16) = frame_of(&mut r, u16s, w, h, ssx, ssy, pa, &logical);
             let (b8, b16) = frame_of(&mut r, u16s, w, h, ssx, ssy, pb, &logical);
             // decode: layout independence, determinism, source untouched, pointwise = 1x1 conversion
